@@ -31,7 +31,7 @@ KIND = {
     "R15.1": "T", "R15.2": "W", "R15.3": "W", "R15.4": "W", "R15.5": "W", "R15.6": "S",
     "R16.1": "T", "R16.2": "W", "R16.3": "W", "R16.4": "W",
     "R17.1": "W", "R17.2": "W", "R17.3": "W", "R17.4": "T", "R17.5": "W", "R17.6": "S",
-    "R18.1": "W", "R18.2": "T", "R18.3a": "S", "R18.3b": "S", "R18.4": "W", "R18.5": "T", "R18.6": "T", "R18.7": "T", "R18.8": "W", "R18.9": "W",
+    "R18.1": "W", "R18.2": "T", "R18.3a": "S", "R18.3b": "S", "R18.4": "W", "R18.5": "T", "R18.6": "T", "R18.7": "T", "R18.8": "W", "R18.9": "W", "R18.10": "W",
     "R19.1a": "S", "R19.1b": "W", "R19.1c": "T", "R19.2": "W", "R19.3": "T", "R19.4": "T", "R19.5": "S", "R19.6": "T",
     "R20.1": "T", "R20.3": "W", "R20.4": "W", "R20.5": "S",
     "SELF": "self-validation of the checker on single-edit variants of the current tree",
